@@ -15,13 +15,13 @@ CONFIG = {
     "harness": "h_c16",
     "level": "proof",
     "extra_proof_files": ["Link"],
-    "n": {"quick": 500, "thorough": 8000},
+    "n": {"quick": 400, "thorough": 8000},
     "shard": 60,
     "rule": "designed cases first (every statement kind the parser produces x a 6-user grant lattice x default db; bootstrap requests alone and with trailing statements x carriers; "
             "write-authoriser lattice; every carrier incl. 9 defective JWT classes x right/wrong password x shared secret set/unset; password change / drop / re-create histories; "
             "one metadata swap landing inside Authenticate), then seeded generation: HTTP request sequences (1-3 requests on one node, cache carried over) over random user tables "
             "(0-4 users, admin/no-admin shapes, grants 0..3 on 4 databases), single and multi-statement queries from 78 templates (+ malformed), GET/POST, /write and /api/v2/write; "
-            "SHOW DATABASES / SHOW CONTINUOUS QUERIES through the real coordinator.StatementExecutor (visible names); direct AuthorizeQuery/AuthorizeWrite calls incl. users not in the table and grants keyed by the empty name; cache histories of data.go operations, snapshots and authentications with current/old/foreign passwords. "
+            "SHOW DATABASES / SHOW CONTINUOUS QUERIES through the real coordinator.StatementExecutor (visible names); requests MIXING privileges that name a database with privileges that fall back to the request default, in every order (designed grid of 13 explicit x 13 default statement forms, both orders and sandwiches, multi-source/subquery/INTO selects; generated with the default set to a database the user lacks), directly and over HTTP; direct AuthorizeQuery/AuthorizeWrite calls incl. users not in the table and grants keyed by the empty name; cache histories of data.go operations, snapshots and authentications with current/old/foreign passwords. "
             "distinct = distinct replayable description; non-trivial = something executed or was refused with 403 (req), non-empty table or query (authz), "
             "at least one successful authentication and two snapshots (hist), swap landed inside the call (race)",
     "trusted_base": [
